@@ -11,7 +11,7 @@ LEVEL = "proof"
 CHARS = ["a", " ", "é", "€", "😎", "́", "-", "Z", " ", "中"]
 
 
-def run(chk):
+def _run_once(chk):
     chk.rule = ("valid UTF-8 records of 0-6 scalars from {a, space, é, €, 😎, U+0301, -, Z, NBSP, 中} (1-4 byte encodings, combining mark, "
                 "characters next to word boundaries), 1-3 records, -z, bounds with sides in ±5/open, plain or formatted, fallbacks; "
                 "dispatch as main does; non-trivial = selects a character or fails")
@@ -46,3 +46,9 @@ def run(chk):
             except UnicodeDecodeError:
                 chk.report_oracle("character mode produced output that is not valid UTF-8 from valid input",
                                   {"case": l, "implementation": i})
+
+
+def run(chk):
+    # thorough = several independent rounds of the same generators (the PRNG keeps advancing), so that memory stays bounded
+    for _round in range(1 if chk.tier == "quick" else 6):
+        _run_once(chk)
